@@ -40,7 +40,10 @@ def translate():
     old = open(dst).read() if os.path.exists(dst) else ""
     if new != old:
         with vlib.Lock("coq"):
-            os.replace(tmp, dst)
+            # written in place (not renamed from the older temporary file): the modification time must be later
+            # than any .vo compiled from the previous content, or make would keep a stale .vo
+            open(dst, "w").write(new)
+            os.remove(tmp)
     return None
 
 
